@@ -10,12 +10,14 @@ namespace C15
 structure Presented where
   subjectType : String := ""
   subjectLive : Bool := false          -- a live token of the DECLARED type
-  subjectSubject : String := ""
+  subjectSubject : String := ""        -- the identity resolved for the SUBJECT role (provider's own resolution / the storage's subject policy)
   actorGiven : Bool := false
   actorType : String := ""
   actorLive : Bool := false
+  actorSubject : String := ""          -- the identity resolved for the ACTOR role (provider's own resolution / the storage's actor policy)
   requestedType : String := ""         -- "" = left to the storage policy
   scopes : List String := []
+  audience : List String := []
   storageVeto : Bool := false          -- the storage policy refuses this exchange
   deriving Repr, Inhabited
 
@@ -27,6 +29,10 @@ structure Issued where
   refreshLive : Bool := false
   subject : String := ""
   scopes : List String := []
+  audience : List String := []         -- audience the issued token carries
+  policyAsked : Bool := false          -- the storage policy was consulted, about this exchange subject / actor:
+  exchangeSubject : String := ""
+  actor : String := ""
   deriving Repr, Inhabited
 
 def supported : List String :=
@@ -47,7 +53,10 @@ def judge (cfg : C05.Cfg) (now : Int) (cred : C04.Presented) (p : Presented) (ob
   match obs with
   | none => none
   | some o =>
-    match cfg.base.clients.find? (·.id == cred.clientID) with
+    let cid := match cred.assertion with
+      | some t => (C14.provesClient cfg.base.issuer cfg.base.jwtMaxAgeIAT cfg.base.jwtOffset (C04.registry cfg.base.clients) t now).getD ""
+      | none => cred.clientID
+    match cfg.base.clients.find? (·.id == cid) with
     | none => some "unknown-client"
     | some cl =>
       if !C05.credentialFits cfg now cl cred false then some "client-not-authenticated"
@@ -58,18 +67,26 @@ def judge (cfg : C05.Cfg) (now : Int) (cred : C04.Presented) (p : Presented) (ob
       else if p.actorGiven && (!supported.contains p.actorType || !p.actorLive) then some "actor-token-not-live"
       else if p.storageVeto then some "storage-veto-ignored"
       else if o.accessToken == "" then some "success-with-empty-token"
-      else if o.issuedTokenType == tAccess then
-        (if o.accessToken != "access" || !o.accessLive then some "declared-access-token-not-contained"
-         else if o.refreshToken then some "undeclared-refresh-token" else none)
-      else if o.issuedTokenType == tRefresh then
-        (if !o.refreshToken || !o.refreshLive then some "declared-refresh-token-not-contained"
-         else if o.accessToken != "access" || !o.accessLive then some "access-token-missing" else none)
-      else if o.issuedTokenType == tID then
-        (if o.accessToken != "id" || !o.accessLive then some "declared-id-token-not-contained" else none)
-      else some "issued_token_type-not-issuable"
-      |>.orElse fun _ =>
-        if o.subject != expectedSubject p then some "tokens:subject"
-        else if o.scopes != p.scopes.filter (· != "address") then some "tokens:scopes"
-        else if p.requestedType != "" && o.issuedTokenType != p.requestedType then some "issued-type-differs-from-requested" else none
+      else
+      -- issued_token_type names a token actually contained (whatever the client's other grants)
+      let contents : Option String :=
+        if o.issuedTokenType == tAccess then
+          (if o.accessToken != "access" || !o.accessLive then some "declared-access-token-not-contained"
+           else if o.refreshToken then some "undeclared-refresh-token" else none)
+        else if o.issuedTokenType == tRefresh then
+          (if !o.refreshToken || !o.refreshLive then some "declared-refresh-token-not-contained"
+           else if o.accessToken != "access" || !o.accessLive then some "access-token-missing" else none)
+        else if o.issuedTokenType == tID then
+          (if o.accessToken != "id" || !o.accessLive then some "declared-id-token-not-contained" else none)
+        else some "issued_token_type-not-issuable"
+      if contents.isSome then contents
+      else if o.subject != expectedSubject p then some "tokens:subject"
+      else if o.scopes != p.scopes.filter (· != "address") then some "tokens:scopes"
+      else if p.requestedType != "" && o.issuedTokenType != p.requestedType then some "issued-type-differs-from-requested"
+      -- the identities are the ones resolved FOR THAT ROLE, and they are what the storage policy was asked about
+      else if !o.policyAsked then some "storage-policy-not-consulted"
+      else if o.exchangeSubject != p.subjectSubject then some "exchange:subject-is-not-the-subject-role's"
+      else if o.actor != (if p.actorGiven then p.actorSubject else "") then some "exchange:actor-is-not-the-actor-role's"
+      else if o.audience != p.audience && o.audience != p.audience ++ [cl.id] then some "tokens:audience" else none
 
 end C15
